@@ -215,6 +215,8 @@ def const_eval(e, enums):
         rd = e.get("referencedDecl", {})
         if rd.get("kind") == "EnumConstantDecl":
             return enums.get(rd["name"])
+        if rd.get("kind") == "ParmVarDecl" and ("$param:" + rd.get("name", "")) in enums:
+            return enums["$param:" + rd["name"]]   # parameter bound to a constant by the caller of this evaluation
         return None
     if k == "UnaryOperator":
         v = const_eval(e["inner"][0], enums)
@@ -247,9 +249,10 @@ def const_eval(e, enums):
 class R:
     """expression renderer; enum constants keep their names, other constants are folded"""
 
-    def __init__(self, enums, subst=None):
+    def __init__(self, enums, subst=None, arrays=None):
         self.enums = enums
         self.subst = subst or {}
+        self.arrays = arrays if arrays is not None else {}   # local never-written arrays with initialiser lists: name -> element ASTs
 
     def __call__(self, e):
         e = strip(e)
@@ -276,6 +279,12 @@ class R:
         if k in ("BinaryOperator", "CompoundAssignOperator"):
             return "(%s %s %s)" % (self(e["inner"][0]), e["opcode"], self(e["inner"][1]))
         if k == "ArraySubscriptExpr":
+            b = strip(e["inner"][0])
+            if b.get("kind") == "DeclRefExpr" and b["referencedDecl"]["name"] in self.arrays:
+                idx = const_eval(e["inner"][1], self.enums)
+                elems = self.arrays[b["referencedDecl"]["name"]]
+                if idx is not None and 0 <= idx < len(elems):
+                    return self(elems[idx])   # element of a constant lookup table (`sigs[1]` with sigs = {sig1, sig2})
             return "%s[%s]" % (self(e["inner"][0]), self(e["inner"][1]))
         if k == "MemberExpr":
             b = self(e["inner"][0])
@@ -295,6 +304,89 @@ class R:
         if k == "InitListExpr":
             return "{…}"
         return "<%s>" % k
+
+
+def const_arrays(body):
+    """local arrays declared with an initialiser list and never assigned through afterwards"""
+    out, written = {}, set()
+    for x in walk(body):
+        if x.get("kind") == "VarDecl" and "[" in x.get("type", {}).get("qualType", ""):
+            init = [c for c in x.get("inner", []) or [] if isinstance(c, dict) and c.get("kind") == "InitListExpr"]
+            if init:
+                out[x["name"]] = [c for c in init[0].get("inner", []) or [] if isinstance(c, dict)]
+        if x.get("kind") in ("BinaryOperator", "CompoundAssignOperator") and (x.get("opcode") == "=" or x.get("kind") == "CompoundAssignOperator"):
+            l = strip(x["inner"][0])
+            while l.get("kind") in ("ArraySubscriptExpr", "MemberExpr", "UnaryOperator"):
+                l = strip(l["inner"][0])
+            if l.get("kind") == "DeclRefExpr":
+                written.add(l["referencedDecl"]["name"])
+    return {k: v for k, v in out.items() if k not in written}
+
+
+def unroll_plan(s, enums):
+    inner = s["inner"]
+    init, cnd, inc, body = inner[0], inner[2], inner[3], inner[4]
+    if not (init and init.get("kind") == "DeclStmt" and cnd and cnd.get("kind") and inc and inc.get("kind")):
+        return None
+    decls = [d for d in init.get("inner", []) if d.get("kind") == "VarDecl"]
+    if len(decls) != 1:
+        return None
+    d = decls[0]
+    di = [c for c in d.get("inner", []) or [] if isinstance(c, dict)]
+    if not di:
+        return None
+    lo = const_eval(di[0], enums)
+    c = strip(cnd)
+    if lo is None or c.get("kind") != "BinaryOperator" or c.get("opcode") not in ("<", "<="):
+        return None
+    l = strip(c["inner"][0])
+    if l.get("kind") != "DeclRefExpr" or l["referencedDecl"].get("id") != d.get("id"):
+        return None
+    hi = const_eval(c["inner"][1], enums)
+    if hi is None:
+        return None
+    if c["opcode"] == "<=":
+        hi += 1
+    i = strip(inc)
+    if not (i.get("kind") == "UnaryOperator" and i.get("opcode") == "++" and strip(i["inner"][0]).get("kind") == "DeclRefExpr"
+            and strip(i["inner"][0])["referencedDecl"].get("id") == d.get("id")):
+        return None
+    if not (0 < hi - lo <= 4):
+        return None
+    for x in walk(body):
+        if x.get("kind") in ("BreakStmt", "ContinueStmt", "GotoStmt", "LabelStmt"):
+            return None
+        if x.get("kind") in ("BinaryOperator", "CompoundAssignOperator", "UnaryOperator"):
+            tgt = None
+            if x.get("kind") == "UnaryOperator" and x.get("opcode") in ("++", "--", "&"):
+                tgt = strip(x["inner"][0])
+            elif x.get("kind") == "CompoundAssignOperator" or x.get("opcode") == "=":
+                tgt = strip(x["inner"][0])
+            if tgt is not None and tgt.get("kind") == "DeclRefExpr" and tgt["referencedDecl"].get("id") == d.get("id"):
+                return None
+    return d.get("id"), lo, hi
+
+
+def subst_var(node, decl_id, value):
+    """copy of an AST subtree with every reference to the variable replaced by an integer literal"""
+    if isinstance(node, list):
+        return [subst_var(c, decl_id, value) for c in node]
+    if not isinstance(node, dict):
+        return node
+    if node.get("kind") == "DeclRefExpr" and node.get("referencedDecl", {}).get("id") == decl_id:
+        return {"kind": "IntegerLiteral", "value": str(value), "type": {"qualType": "int"}, "_line": node.get("_line"), "_file": node.get("_file")}
+    return {k: (subst_var(v, decl_id, value) if k == "inner" else v) for k, v in node.items()}
+
+
+def subst_refs(node, m):
+    """copy of an AST subtree with references to the given declarations replaced by expression ASTs"""
+    if isinstance(node, list):
+        return [subst_refs(c, m) for c in node]
+    if not isinstance(node, dict):
+        return node
+    if node.get("kind") == "DeclRefExpr" and node.get("referencedDecl", {}).get("id") in m:
+        return {"kind": "ParenExpr", "type": node.get("type"), "_line": node.get("_line"), "_file": node.get("_file"), "inner": [m[node["referencedDecl"]["id"]]]}
+    return {k: (subst_refs(v, m) if k == "inner" else v) for k, v in node.items()}
 
 
 def split_args(s):
@@ -371,8 +463,8 @@ class CFG:
         self.entry = self.new("entry")
         self.exit = self.new("exit")
         self.labels, self.gotos = {}, []
-        self.r = R(prog.enums)
         body = [c for c in fdecl["inner"] if c.get("kind") == "CompoundStmt"][0]
+        self.r = R(prog.enums, arrays=const_arrays(body))
         ends = self.stmt(body, [self.entry], None, None)
         self.seq(ends, self.exit)
         for n, lab in self.gotos:
@@ -459,6 +551,15 @@ class CFG:
         if k == "ForStmt":
             inner = s["inner"]  # init, (condvar), cond, inc, body
             init, _, cnd, inc, body = inner[0], inner[1], inner[2], inner[3], inner[4]
+            un = unroll_plan(s, self.prog.enums)
+            if un is not None:
+                # `for (int i = a; i < K; i++)` with constant a, K and at most 4 iterations whose body neither
+                # writes i nor leaves the loop: analysed as K-a copies of the body with i replaced by its value
+                decl_id, lo, hi = un
+                cur = preds
+                for v in range(lo, hi):
+                    cur = self.stmt(subst_var(body, decl_id, v), cur, brk, cont)
+                return cur
             cur = preds
             if init and init.get("kind"):
                 cur = self.stmt(init, cur, brk, cont)
@@ -552,8 +653,43 @@ class CFG:
         if k in ("SwitchStmt", "CaseStmt", "DefaultStmt", "IndirectGotoStmt", "GCCAsmStmt"):
             raise Unsupported(k)
         # expression statement
+        inl = self.inline_plan(s)
+        if inl is not None:
+            # call of a void helper the rules do not know (not in CVOCAB): analysed as if its body stood here,
+            # parameters replaced by the argument expressions
+            return self.stmt(inl, preds, brk, cont)
         n = self.new("stmt", s, s.get("_line"), s)
         return self.seq(preds, n)
+
+    def inline_plan(self, s):
+        e = strip(s) if s.get("kind") in TRANSPARENT else s
+        if e.get("kind") != "CallExpr":
+            return None
+        try:
+            from cvocab import CVOCAB
+        except Exception:
+            return None
+        cn = callee_name(e)
+        if cn is None or cn in CVOCAB or cn not in self.prog.funcs or cn == self.name:
+            return None
+        self._inl_depth = getattr(self, "_inl_depth", 0)
+        if self._inl_depth > 2:
+            return None
+        fdecl = self.prog.funcs[cn]
+        rtype = (fdecl.get("type", {}).get("qualType", "") or "").split("(")[0].strip()
+        if rtype != "void":
+            return None
+        body = [c for c in fdecl["inner"] if c.get("kind") == "CompoundStmt"]
+        if not body:
+            return None
+        if any(x.get("kind") in ("ReturnStmt", "GotoStmt", "LabelStmt") for x in walk(body[0])):
+            return None
+        params = self.prog.params(cn)
+        args = e["inner"][1:]
+        if len(params) != len(args):
+            return None
+        m = {p_.get("id"): a_ for p_, a_ in zip(params, args)}
+        return subst_refs(body[0], m)
 
     # ---- dominators (iterative, sets; graphs are tiny)
     def dom(self):
@@ -690,12 +826,38 @@ class CFG:
                         if x.kind in ("stmt", "decl") and x is not d and (self.writes(x) & rv) and self.between_nodes(d, x, n):
                             stable = False
                     if stable:
-                        subst[v] = self.r(rhs)
+                        subst[v] = self.render_resolved(rhs, d, n, 0)
                     elif v in killed_vars:
                         ok = False
                 if ok and subst:
                     out.append((self.norm(br.expr, pol, R(self.prog.enums, subst)), br))
         return out
+
+    def render_resolved(self, e, at, n, depth):
+        """render e (evaluated at node `at`) with single-definition locals replaced by their defining
+        expressions, recursively, as long as nothing they depend on is written before n"""
+        if depth > 3:
+            return self.r(e)
+        inner = {}
+        for v in vars_in(e):
+            d = self.def_of(v, at)
+            if d is None or d is at:
+                continue
+            rhs = self.rhs_of(d, v)
+            if rhs is None or strip(rhs).get("kind") in ("InitListExpr",) or v in vars_in(rhs):
+                continue
+            if any(x.get("kind") == "CallExpr" for x in walk(rhs)):
+                continue   # only aliases and address arithmetic are looked through (`point = &A[i]`, `q = src + 96 * i`)
+            rv = vars_in(rhs)
+            stable = True
+            for x in self.nodes:
+                if x.kind in ("stmt", "decl") and x is not d and (self.writes(x) & (rv | {v})) and self.between_nodes(d, x, n):
+                    stable = False
+            if stable and d.kind == "decl" and ("*" in (d.stmt or {}).get("type", {}).get("qualType", "") or True):
+                inner[v] = self.render_resolved(rhs, d, n, depth + 1)
+        if not inner:
+            return self.r(e)
+        return R(self.prog.enums, inner, self.r.arrays)(e)
 
     def dominating_edges(self, n):
         out = []
